@@ -1048,6 +1048,16 @@ def storecontract_gen(tier):
                        "k.storelib 0 1 1", "k.pexe 0 0 %s 0" % hx(probe), "k.exec 0", "k.out 0", "k.end", "leakcheck"]
                 yield Case("sc%d" % n, ops, {"kind": "storecontract", "what": "library-owned", "value": src, "target": target})
                 n += 1
+        # (c) caller-owned scalars (boolean, integer, decimal and their nulls) are copied: the caller's value is the same after one store and
+        #     after a second one into another variable, and both variables hold it
+        for vspec, vname, shown in (("i7", "integer", "7 7 TRUE"), ("d0x1.4p+1", "decimal", "2.5 2.5 TRUE"), ("b1", "boolean", "TRUE TRUE TRUE"), ("i-9223372036854775808", "integer-min", None),
+                                    ("d0x1p-1074", "decimal-subnormal", None), ("b0", "boolean-false", "FALSE FALSE TRUE"),
+                                    ("null:1", "null-boolean", None), ("null:2", "null-integer", None), ("null:3", "null-decimal", None)):
+            ops = ["k.create 0", "k.pexe 0 0 %s 0" % hx(STORE_SETUP), "k.exec 0", "k.freeexe 0", "k.new 0 %s" % vspec, "k.inspect v 0", "k.find 0 0 U",
+                   "k.store 0 0 0", "k.inspect v 0", "k.find 0 1 W", "k.store 0 1 0", "k.inspect v 0",
+                   "k.pexe 0 0 %s 0" % hx('print u " " w " " (u == w); print typeof(u) " " typeof(w) " " isnull(u) " " isnull(w);'), "k.exec 0", "k.out 0", "k.end", "leakcheck"]
+            yield Case("sc%d" % n, ops, {"kind": "storecontract", "what": "scalar-copied", "value": vname, "shown": shown})
+            n += 1
     return gen
 
 
@@ -1064,6 +1074,16 @@ def check_storecontract(case, res, vs):
                 m["value"], m["target"], stored.get("ret"), caller.get("dump")), case))
         if st[9].get("ret") != 1:
             vs.append(Violation("store-contract:later-store-failed", "the same value could not be stored into U afterwards: %s" % st[9], case))
+    elif m["what"] == "scalar-copied":
+        before, s1, after1, s2, after2 = st[5].get("val", {}), st[7], st[8].get("val", {}), st[10], st[11].get("val", {})
+        out = unhex(st[14].get("out", "")).decode("latin-1") if st[14].get("r") == "ok" else None
+        if s1.get("ret") != 1 or s2.get("ret") != 1:
+            vs.append(Violation("store-contract:scalar-store-failed", "storing a %s into U / W returned %s / %s" % (m["value"], s1.get("ret"), s2.get("ret")), case))
+        elif before.get("dump") != after1.get("dump") or before.get("dump") != after2.get("dump"):
+            vs.append(Violation("store-contract:scalar-not-copied:%s" % m["value"].split("-")[-1], "the caller's %s is %s before the store, %s after it and %s after a second store (documented: copied)" % (
+                m["value"], before.get("dump"), after1.get("dump"), after2.get("dump")), case))
+        elif st[12].get("ptr") != 1 or st[13].get("ret") != 1 or out is None or (m["shown"] and not out.startswith(m["shown"] + "\n")) or len(out.split("\n")[1].split()) != 4 or out.split("\n")[1].split()[0] != out.split("\n")[1].split()[1] or out.split("\n")[1].split()[2] != out.split("\n")[1].split()[3]:
+            vs.append(Violation("store-contract:scalar-stored-wrong", "after storing a %s into U and W the script prints %r (parse %s run %s)" % (m["value"], out, st[12].get("ptr"), st[13].get("ret")), case))
     else:
         out = unhex(st[10].get("out", "")).decode("latin-1") if st[10].get("r") == "ok" else None
         if st[8].get("ptr") != 1 or st[9].get("ret") != 1 or out != STORE_WANT[m["value"]] + "\n":
